@@ -14,8 +14,8 @@ const (
 	// of an earlier name; the last name may be an unterminated partial name.
 	Strict Class = iota
 	// Grey: the RFCs are silent or contradictory (forward pointers, pointer
-	// chains, pointers into the middle of a label or to an unterminated run,
-	// names longer than 255 octets). Reject or the natural reading.
+	// chains, pointers into the middle of a label or to an unterminated run).
+	// Reject or the natural reading.
 	Grey
 	// Malformed: no RFC reading exists (label overruns the buffer, pointer
 	// without second octet, pointer beyond the buffer, reserved label types
@@ -130,8 +130,19 @@ func DecodeReasons(b []byte) (names []string, class Class, reasons []string) {
 			wire += 1 + l
 			p += 1 + l
 		}
-		if wire > 255 {
-			worsen(Grey, GreyLongName)
+		// RFC 1035 section 3.1: "the total length of a domain name (i.e., label octets and label
+		// length octets) is restricted to 255 octets or less". A partial name (RFC 4704) still lacks
+		// its root octet; exactly 255 label octets without terminator is left undecided.
+		total := wire
+		if !terminated {
+			total = wire + 1
+		}
+		if total > 255 {
+			if !terminated && wire == 255 {
+				worsen(Grey, GreyLongName)
+			} else {
+				return nil, Malformed, []string{"name longer than 255 octets"}
+			}
 		}
 		for _, m := range mine {
 			boundaries[m] = true
